@@ -15,7 +15,7 @@ PART = "x26_iosetup"
 ENV = {"ASAN_OPTIONS": vlib.ASAN_ENV + ":symbolize=0"}
 CFG = {
     "quick":    dict(mcs=["MC_IoSetup.cfg"], gens=["Gen_IoSetup.cfg", "Gen_IoSetup_c.cfg"], nhist=30, steps=40, sample=2500),
-    "thorough": dict(mcs=["MC_IoSetup.cfg", "MC_IoSetup_t.cfg"], gens=["Gen_IoSetup_t.cfg", "Gen_IoSetup_c.cfg"], nhist=300, steps=80, sample=0),
+    "thorough": dict(mcs=["MC_IoSetup.cfg", "MC_IoSetup_t.cfg"], gens=["Gen_IoSetup_t.cfg", "Gen_IoSetup_c.cfg"], nhist=200, steps=80, sample=15000),
 }
 TOP = os.path.join(vlib.ROOT, "_work", "X26")
 SCRATCH = os.path.join(TOP, "run-%d" % os.getpid())     # per run: several C11 runs may share the machine
